@@ -213,9 +213,15 @@ func (p *ReverseProxy) getTransport(cluster *bfe_cluster.BfeCluster) bfe_http.Ro
 	p.tsMu.RUnlock()
 
 	if !ok {
-		transport = createTransport(cluster)
+		newTransport := createTransport(cluster)
 		p.tsMu.Lock()
-		p.transports[cluster.Name] = transport
+		// a reload may have installed a transport for this cluster since the
+		// lookup above: that one belongs to the conf in force and must not be
+		// replaced by one built from the (possibly older) conf of this request
+		if transport, ok = p.transports[cluster.Name]; !ok {
+			transport = newTransport
+			p.transports[cluster.Name] = transport
+		}
 		p.tsMu.Unlock()
 	}
 
